@@ -15,10 +15,12 @@ pub struct ChunkedReader {
     /// <= 0 = no fault pending; n > 0 = the n-th read call from now fails once with "injected fault" and delivers nothing
     /// (shared with clones of the reader and with the driver, which arms it after the reader was opened)
     pub fault_in: std::sync::Arc<std::sync::atomic::AtomicIsize>,
+    /// the same for seek calls: the n-th seek call from now fails once with "injected seek fault" and leaves the position where it was
+    pub seek_fault_in: std::sync::Arc<std::sync::atomic::AtomicIsize>,
 }
 impl ChunkedReader {
     pub fn new(data: Vec<u8>, chunks: Vec<usize>, splits: Vec<usize>) -> Self {
-        ChunkedReader { data, pos: 0, chunks, k: 0, splits, reads: 0, fault_in: Default::default() }
+        ChunkedReader { data, pos: 0, chunks, k: 0, splits, reads: 0, fault_in: Default::default(), seek_fault_in: Default::default() }
     }
 }
 impl Read for ChunkedReader {
@@ -45,6 +47,9 @@ impl Read for ChunkedReader {
 }
 impl Seek for ChunkedReader {
     fn seek(&mut self, p: SeekFrom) -> std::io::Result<u64> {
+        if self.seek_fault_in.load(std::sync::atomic::Ordering::Relaxed) > 0 && self.seek_fault_in.fetch_sub(1, std::sync::atomic::Ordering::Relaxed) == 1 {
+            return Err(std::io::Error::new(std::io::ErrorKind::TimedOut, "injected seek fault"));
+        }
         let np: i64 = match p {
             SeekFrom::Start(o) => o as i64,
             SeekFrom::Current(d) => self.pos as i64 + d,
